@@ -203,6 +203,18 @@ func verifStubNewProxyConfigurerByType(proxyType ProxyType) ProxyConfigurer {
 	return nil
 }
 
+// GetBaseConfig hands out the embedded base configuration and touches nothing.
+//
+//verif:contract (~/pkg/config/v1.ProxyConfigurer).GetBaseConfig
+//verif:impls *~/pkg/config/v1.TCPProxyConfig *~/pkg/config/v1.UDPProxyConfig *~/pkg/config/v1.HTTPProxyConfig *~/pkg/config/v1.HTTPSProxyConfig *~/pkg/config/v1.TCPMuxProxyConfig *~/pkg/config/v1.STCPProxyConfig *~/pkg/config/v1.XTCPProxyConfig *~/pkg/config/v1.SUDPProxyConfig
+//verif:props C18
+//verif:modifies
+func verif_ProxyConfigurer_GetBaseConfig(c ProxyConfigurer) {
+	verif.Requires(c != nil, "configuration_present")
+	b := c.GetBaseConfig()
+	verif.Ensures(b != nil, "base_present")
+}
+
 //verif:det-fn reflect.TypeOf
 //verif:table ~/pkg/config/v1.proxyConfigTypeMap
 
